@@ -1121,6 +1121,7 @@ func genLanes() {
 	b.WriteString("]\n\nend Gen\n")
 	writeIfChanged("VectorHandlers.lean", b.String())
 	fmt.Printf("NOTE lanes: %d vector handler records, %d dispatch entries, %d scalar handlers\n", len(handlers), len(dispatch), len(scalars))
+	genLaneBodies(handlers)
 }
 
 func isStateCall2(n ast.Node) (string, *ast.CallExpr) {
